@@ -5,6 +5,7 @@ import (
 	"fmt"
 	"math/rand/v2"
 	"strings"
+	"time"
 
 	"github.com/lugu/qiloop/bus"
 	"github.com/lugu/qiloop/bus/directory"
@@ -22,7 +23,7 @@ type c12 struct{}
 
 func init() { core.Register("C12", func() core.Scenario { return c12{} }) }
 
-var c12cats = []string{"reg", "reg", "reg", "unreg", "unreg", "generic", "generic", "method", "dir", "type", "mutate", "mutate", "unknown", "flood", "terminate", "nested", "reauth"}
+var c12cats = []string{"authstorm", "reg", "reg", "reg", "unreg", "unreg", "generic", "generic", "method", "dir", "type", "mutate", "mutate", "unknown", "flood", "terminate", "nested", "reauth"}
 
 func (c12) Gen(r *rand.Rand, tier string, run int) *core.Case {
 	c := &core.Case{Prop: "C12", Params: map[string]int{}}
@@ -51,6 +52,11 @@ func (c12) Gen(r *rand.Rand, tier string, run int) *core.Case {
 	default:
 		c.Batch = "mutation"
 		c.Params["finale"] = []int{0, 2}[r.IntN(2)]
+	}
+	if c.Batch != "stall" && r.IntN(3) == 0 {
+		// the fresh client does not wait for the server to have digested the
+		// hostile client's traffic: it arrives while that traffic is queued
+		c.Params["eager"] = 1
 	}
 	n := 3 + r.IntN(10)
 	for i := 0; i < n; i++ {
@@ -93,7 +99,9 @@ type c12state struct {
 	raw         *Raw
 	bloated     int // oversized entries the hostile client got registered and ready
 	bloatIDs    []uint32
-	listingSize int // size of the directory's answer to services() after a failed probe, as read by a peer without a size limit
+	probeSim    time.Duration // simulated time the probe phase took
+	earlySim    time.Duration // ... and the early probe, if any
+	listingSize int           // size of the directory's answer to services() after a failed probe, as read by a peer without a size limit
 }
 
 func (c12) Run(c *core.Case, env *core.Env) {
@@ -249,8 +257,33 @@ func (c12) Run(c *core.Case, env *core.Env) {
 		raw.Conn.Abort()
 	}
 	env.Return(h, fmt.Sprintf("%d frames", st.sent), nil)
+	// The simulated clock only moves when nothing can run: what a probe
+	// costs in simulated time is time somebody spent waiting for a timer.
+	if c.P("eager", 0) == 1 {
+		// a first fresh client does not wait for the server to have digested
+		// the hostile client's traffic: it arrives while that traffic is
+		// queued, and is owed an answer of some kind from every object
+		env.Probe("fresh-client-arrives-while-the-hostile-traffic-is-queued")
+		t0 := time.Now()
+		ecl, err := Connect("early", "u", "p")
+		hc := env.Invoke(401, "probe-early-connect", "")
+		env.Return(hc, "", err)
+		if err == nil {
+			for i, id := range w.ObjIDs {
+				tok := ref.Token{Client: 401, Seq: int32(i), Nonce: int64(id), Text: "e"}
+				h := env.Invoke(401, "probe-early-call", fmt.Sprintf("service %d object %d", w.ServiceID, id))
+				_, err := ecl.Call(nil, w.ServiceID, id, ActEcho, ref.EncodeToken(tok))
+				env.Return(h, "", err)
+			}
+		}
+		st.earlySim = time.Since(t0)
+	}
 	env.S.Quiesce()
 	// the probe: a fresh client calls every object
+	t0 := time.Now()
+	defer func() {
+		st.probeSim = time.Since(t0)
+	}()
 	pcl, err := Connect("probe", "u", "p")
 	hc := env.Invoke(400, "probe-connect", "")
 	env.Return(hc, "", err)
@@ -540,6 +573,29 @@ func c12frames(st *c12state, cat string, r *rand.Rand) [][]byte {
 	case "type":
 		s, o := target()
 		return [][]byte{ref.NewFrame(uint8(1+r.IntN(8)), s, o, pick32(0, 1, 2, 5, 6, ActEcho, ActNoarg, 101, 9999), id(), garbage()).Encode()}
+	case "authstorm":
+		// a series of authentication requests that are refused (wrong token,
+		// credentials of the wrong type), sent without waiting
+		var out [][]byte
+		for i := 0; i < 3+r.IntN(12); i++ {
+			var p []byte
+			switch r.IntN(3) {
+			case 0:
+				p = ref.AuthPayload("u", "wrong")
+			case 1:
+				p = ref.AuthPayload("nobody", "p")
+			default:
+				var b ref.Buf
+				b.U32(2)
+				b.Str("auth_user")
+				b.ValI32(7)
+				b.Str("auth_token")
+				b.ValI32(8)
+				p = b.Bytes()
+			}
+			out = append(out, ref.NewFrame(uint8(pick32(ref.Call, ref.Post)), 0, 0, 8, id(), p).Encode())
+		}
+		return out
 	case "reauth":
 		// the client authenticates again (good, bad or malformed credentials)
 		// and goes on talking without waiting for the verdict
@@ -774,6 +830,34 @@ func (c12) Check(c *core.Case, env *core.Env, res zzsim.Result, v *core.Verdict)
 		}
 	}
 	env.ProbeN("hostile-frames", st.sent)
+	for _, h := range hs {
+		if h.Kind == "probe-early-connect" && !h.OK {
+			bad("early-probe-refused", "a fresh client arriving while the hostile client's traffic was queued could not connect and authenticate: %s", h.Err)
+		}
+		if h.Kind == "probe-early-call" && h.Ret != 0 {
+			env.Probe("early-probe-calls-answered")
+		}
+	}
+	if st.earlySim > 0 {
+		env.Probe("early-probe-took-simulated-time")
+	}
+	// bounded time: nothing in the scenario sleeps, so the requests of the
+	// fresh clients cost processor time only, which the simulated clock does
+	// not count; when they cost seconds of it somebody made them wait for
+	// timers set on behalf of the hostile client's traffic
+	if d := st.earlySim + st.probeSim; d > 2*time.Second {
+		bad("fresh-client-waits", "the requests of the fresh clients took %v of simulated time (early client %v, probe %v) after the hostile client's %d frames: the clock only moves when nothing can run, so the server made them wait for timers", d, st.earlySim, st.probeSim, st.sent)
+	}
+	switch ms := st.probeSim.Milliseconds(); {
+	case ms == 0:
+		env.Probe("probe-phase-took-no-simulated-time")
+	case ms <= 100:
+		env.Probe("probe-phase-took-up-to-100-simulated-ms")
+	case ms <= 1000:
+		env.Probe("probe-phase-took-up-to-1-simulated-s")
+	default:
+		env.Probe("probe-phase-took-more-than-1-simulated-s")
+	}
 	env.ProbeN("probe-calls-answered", probes)
 	v.Nontrivial = st.sent > 0 && probes > 0
 }
